@@ -627,7 +627,9 @@ def gen_simulation(rng, idx):
     algo = rng.choice(["greedy", "greedy", "rr"])
     opt = {"algo": algo, "sort": rng.choice(sorted(SORT_FN)), "unint": rng.random() < 0.5, "est": rng.random() < 0.5,
            "inc": int(rng.choice([0.5, 1.0, 2.0]) * U) if algo == "rr" else 0}
-    return {"idx": idx, "T": period, "st": stations, "con": cons, "sessions": sessions, "opt": opt}
+    # the documented attribute max_recompute of the algorithm (the simulator re-invokes it at least that often): with a
+    # cadence of 3 a one-period schedule covers one period in three - less energy, never more than requested
+    return {"idx": idx, "T": period, "st": stations, "con": cons, "sessions": sessions, "opt": opt, "mr": rng.choice([1, 1, 3])}
 
 
 def run_simulation(p):
@@ -645,6 +647,7 @@ def run_simulation(p):
         network = build_network(net)
         estimator = SimpleRampdown() if opt["est"] else None
         algo = make_algorithm(dict(opt), estimator=estimator)
+        algo.max_recompute = p.get("mr", 1)
         evs, events = [], []
         for s in p["sessions"]:
             if s["batt"]["k"] == "ideal":
